@@ -45,6 +45,7 @@
     returns anyhow::Result<()>
 @@ StateApplyManager::apply_snapshot chain 1 spec
     // the future of the handler (T20): what it sends, as a function of the snapshot file it was given
+    requires snap_image_ok(file.contents())
     ensures
         // @C08 the membership recorded in the snapshot goes to the index manager, unchanged, before anything else
         r is Ok ==> snap_hdr(file.contents()) is Some && final(vx_log).s.len() > old(vx_log).s.len()
@@ -72,7 +73,7 @@
 @@ StateApplyManager::apply_snapshot entry
     broadcast use axiom_arc_cloned;
 @@ StateApplyManager::apply_snapshot spec
-    requires old(self).wired()
+    requires old(self).wired(), snap_image_ok(file.contents())
     ensures
         *final(self) == *old(self),
         // @C08 (membership) a readable snapshot file: its membership is saved first
@@ -87,6 +88,7 @@
 @@ StateApplyManager::do_load_snapshot effects_pass load_snapshot
 @@ StateApplyManager::do_load_snapshot strip_mut reader
 @@ StateApplyManager::do_load_snapshot spec
+    requires reader.wf()
     // C01 / C08: every record the reader still holds is handed to the component that owns its tree, in file order; a record
     // that cannot be decoded is skipped (snap_effs of it is empty); an unreadable file ends the loading at the fault
     ensures
@@ -94,10 +96,11 @@
         exists|k: int| 0 <= k <= reader.remaining().len() && (!reader.faulty() ==> k == reader.remaining().len())
             && final(vx_log).s == old(vx_log).s + snap_effs_all(*data_wrap, #[trigger] reader.remaining().take(k)),
 @@ StateApplyManager::do_load_snapshot loop 1
-    invariant
-        reader.faulty() == reader0.faulty(),
-        0 <= k <= reader0.remaining().len(),
+    invariant_except_break
+        reader.faulty() == reader0.faulty(), reader.wf(),
         reader.remaining() == reader0.remaining().skip(k),
+    invariant
+        0 <= k <= reader0.remaining().len(),
         vx_log.s == l0 + snap_effs_all(*hw, reader0.remaining().take(k)), hw == data_wrap,
     ensures
         !reader0.faulty() ==> k == reader0.remaining().len(),
@@ -132,7 +135,7 @@
 @@ StateApplyManager::handle@Handler<StateApplyRequest> t20_calls apply_snapshot
 @@ StateApplyManager::handle@Handler<StateApplyRequest> foriter 1 it
 @@ StateApplyManager::handle@Handler<StateApplyRequest> spec
-    requires old(self).wired()
+    requires old(self).wired(), msg matches StateApplyRequest::ApplySnapshot { snapshot } ==> snap_image_ok(snapshot.contents())
     ensures
         // C07 (follower, one replicated batch of ANY length): the messages of every entry, in log order, then the applied index
         msg matches StateApplyRequest::ApplyBatchRequest(requests) ==> final(self).wired() && (
@@ -229,6 +232,7 @@
     env index_manager: Addr<RaftIndexManager>, data_wrap: Arc<RaftDataHandler>, snapshot_manager: Addr<RaftSnapshotManager>, log_manager: Addr<RaftLogManager>
     returns anyhow::Result<()>
 @@ StateApplyManager::load_snapshot chain 1 spec
+    requires all_snapshot_images_ok()
     // the snapshot stage of a start-up: the snapshot manager is asked for the last snapshot; every record of the file it names is
     // handed to the component that owns its tree, in file order (up to a read fault)
     ensures
@@ -236,7 +240,7 @@
         || exists|p: Seq<char>, k: int| 0 <= k <= snap_recs(disk_at_open(p)).len() && final(vx_log).s
             == old(vx_log).s.push(sent(snapshot_manager, RaftSnapshotRequest::GetLastSnapshot)) + snap_effs_all(*data_wrap, #[trigger] snap_recs(disk_at_open(p)).take(k)),
 @@ StateApplyManager::load_snapshot spec
-    requires old(self).fully_wired()
+    requires old(self).fully_wired(), all_snapshot_images_ok()
     // @C01 restart: snapshot stage (when there is a snapshot), then the replay stage — in this order, nothing else
     ensures *final(self) == *old(self),
         (old(self).snapshot_next_index == 0) ==> final(vx_log).s == old(vx_log).s + old(self).replay_effs(),
